@@ -20,20 +20,25 @@ package telem
 //@ pure func (tr TimeRange) Union(other TimeRange) TimeRange
 
 //@ spec func SpecNonneg(tr TimeRange) bool = tr.Start >= 0 && tr.End >= 0
+//@ # End-Start is representable (true whenever both ends are non-negative)
+//@ spec func SpecSpanFits(tr TimeRange) bool = tr.End - tr.Start >= -9223372036854775808 && tr.End - tr.Start <= 9223372036854775807
 
 //@ pure func (tr TimeRange) Span() TimeSpan
-//@   requires SpecNonneg(tr)
+//@   requires SpecSpanFits(tr)
 //@ pure func (tr TimeRange) Valid() bool
-//@   requires SpecNonneg(tr)
+//@   requires SpecSpanFits(tr)
 //@ pure func (tr TimeRange) MakeValid() TimeRange
-//@   requires SpecNonneg(tr)
+//@   requires SpecSpanFits(tr)
 //@ pure func (tr TimeRange) OverlapsWith(rng TimeRange) bool
-//@   requires SpecNonneg(tr) && SpecNonneg(rng)
+//@   requires SpecSpanFits(tr) && SpecSpanFits(rng)
+//@ pure func (ts TimeSpan) IsZero() bool
 
 //@ pure func (ts TimeStamp) Add(tspan TimeSpan) TimeStamp
 //@   requires true
 //@ pure func (ts TimeStamp) SpanRange(span TimeSpan) TimeRange
-//@   requires ts >= 0 && span >= 0
+//@   requires ts >= 0
+//@ pure func (ts TimeStamp) Span(t TimeStamp) TimeSpan
+//@   requires t - ts >= -9223372036854775808 && t - ts <= 9223372036854775807
 
 //@ lemma spanRangeZero(ts TimeStamp)
 //@   requires ts >= 0
